@@ -122,11 +122,11 @@ def _run(inp, settings):
     return "ok"
 
 
-def _compare_tree(settings, dirs, excluded, out, recursive, auto_ex, has_prefix, sep2, ext_t, ext_m):
+def _compare_tree(settings, dirs, excluded, out, recursive, auto_ex, has_prefix, sep2, ext_t, ext_m, base=BASE):
     sep = "::" if sep2 else "."
-    prefix = _PFX[0] if has_prefix else "in"
+    prefix = _PFX[0] if has_prefix else pp.basename(base)
     outabs = None if out is None else pp.normpath(pp.join(VFS.cwd, out))
-    pages, indexes, order = vfslib.spec_tree(dirs, excluded, BASE, outabs, recursive, auto_ex, prefix, sep, ext_t, ext_m)
+    pages, indexes, order = vfslib.spec_tree(dirs, excluded, base, outabs, recursive, auto_ex, prefix, sep, ext_t, ext_m)
     # the matcher is asked with the directory form for directories, the plain form for files
     for a in VFS.asked:
         k = pp.normpath(pp.join(VFS.cwd, a))
@@ -205,6 +205,21 @@ def check(present: List[bool], excl: List[bool], rev: List[bool], excl_root: boo
     if MODE in ("tree", "stdout"):
         _run(BASE, settings)
         return hc.report(_compare_tree(settings, dirs, excluded, out, recursive, auto_ex, has_prefix, sep2, ext_t, ext_m), **args)
+    if MODE == "link":
+        # the input path is a symbolic link to the tree (api -> cmake_modules): everything is named after the path as given -- default
+        # prefix, index titles, page titles, the spelling the matcher is asked about -- never after the link's target
+        LNK = "/w/lnk"
+        dirs_l, excl_l = {}, {}
+        for k_ in dirs:
+            dirs_l[LNK + k_[len(BASE):]] = dirs[k_]
+        for k_ in excluded:
+            excl_l[LNK + k_[len(BASE):]] = excluded[k_]
+        VFS.reset(dirs, excl_l)
+        VFS.links = {LNK: BASE}
+        VFS.rel_verdict = relv
+        VFS.rel_verdict2 = relv2
+        _run(LNK, settings)
+        return hc.report(_compare_tree(settings, dirs_l, excl_l, out, recursive, auto_ex, has_prefix, sep2, ext_t, ext_m, base=LNK), **args)
     if MODE == "rel":
         # C17.a: same contents, other listing order / other working directory / relative input path => same files
         _run(BASE, settings)
